@@ -15,9 +15,16 @@ import (
 // arguments, phis, extracts, loads of local allocs (via the stores into them), field/index
 // addressing, closures' bindings. visit returns true to stop descending at that value.
 type slicer struct {
-	seen  map[ssa.Value]bool
-	visit func(v ssa.Value) (stop bool)
-	depth int
+	seen      map[ssa.Value]bool
+	visit     func(v ssa.Value) (stop bool)
+	depth     int
+	withIndex bool // also follow index / key operands of element accesses
+}
+
+// backSliceIdx is backSlice that also follows the index operands of element accesses.
+func backSliceIdx(v ssa.Value, visit func(ssa.Value) bool) {
+	s := &slicer{seen: map[ssa.Value]bool{}, visit: visit, withIndex: true}
+	s.walk(v, 0)
 }
 
 func backSlice(v ssa.Value, visit func(ssa.Value) bool) {
@@ -62,13 +69,19 @@ func (s *slicer) walk(v ssa.Value, d int) {
 		s.walk(v.X, d+1)
 	case *ssa.IndexAddr:
 		s.walk(v.X, d+1)
-		s.walk(v.Index, d+1)
+		if s.withIndex {
+			s.walk(v.Index, d+1)
+		}
 	case *ssa.Index:
 		s.walk(v.X, d+1)
-		s.walk(v.Index, d+1)
+		if s.withIndex {
+			s.walk(v.Index, d+1)
+		}
 	case *ssa.Lookup:
 		s.walk(v.X, d+1)
-		s.walk(v.Index, d+1)
+		if s.withIndex {
+			s.walk(v.Index, d+1)
+		}
 	case *ssa.Slice:
 		s.walk(v.X, d+1)
 	case *ssa.MakeInterface:
